@@ -322,6 +322,40 @@ def r8(ctx):
            f"{n} paths: EAGAIN on a non-blocking socket propagates as the transport's own error" if bad is None else
            f"on a non-blocking transport (timeout 0) 'no data yet' ends as {bad.kind} {bad.exc_class or bad.value!r}: reported as a lost connection, the connection is then torn down",
            idx.loc(idx.func(q).node), {"path": path_text(bad)} if bad else None)
+    # a blocking (or timed) transport that says "nothing yet" -- TLS want-read, or EAGAIN from a green socket -- is waited
+    # for and read again; the condition is never handed to the caller
+    for exc, args_ in (("ssl.SSLWantReadError", (C(2), C("The operation did not complete (read)"))), ("builtins.BlockingIOError", (C(11), C("Resource temporarily unavailable")))):
+        def mr2(name, node, run, exc=exc, args_=args_):
+            if name == "sock.recv" and not any(e.name == "sock.recv" and "@raised" in e.kwargs for e in run.effects):
+                return [(exc, args_)]
+            return []
+
+        st2 = dict(BASE_STUBS)
+        st2["sock.gettimeout"] = lambda I, run, a, k, n: C(5)
+        st2["selectors.DefaultSelector"] = lambda I, run, a, k, n: new_obj(run, None, "sel")
+        st2["sel.register"] = lambda I, run, a, k, n: NONE
+        st2["sel.close"] = lambda I, run, a, k, n: NONE
+        st2["sel.select"] = lambda I, run, a, k, n: (run.effect("sel.select", a, node=n), new_list(run, [Sym("ready", "obj")]))[1]
+        Iw = Interp(idx, Config(stubs=st2, may_raise=mr2))
+        outs_w = ctx.count_paths(Iw.explore(lambda run: Iw.call(run, Iw.make_fn(run, q), [Sym("sock", "obj"), C(10)], {}, None)))
+        nw = 0
+        badw = None
+        for o in outs_w:
+            if not any("@raised" in e.kwargs for e in o.effects):
+                continue
+            nw += 1
+            names = [e.name for e in o.effects]
+            ok = o.kind in ("return", "raise") and names.count("sock.recv") == 2 and "sel.select" in names and \
+                not (o.kind == "raise" and (o.exc_class or "").split(".")[-1] in ("SSLWantReadError", "BlockingIOError"))
+            if not ok:
+                badw = badw or o
+        if nw == 0:
+            raise AnalysisError("want-read case not explored")
+        nm = exc.split(".")[-1]
+        ctx.ob(f"{q}:blocking-transport:{nm}-is-waited-for", badw is None, f"{nw} paths: wait for readability, then read again" if badw is None else
+               f"a transport with a timeout answers a read with {nm} ('nothing yet'): recv() ends as " + (f"{badw.kind} {badw.exc_class or badw.value!r} after {[e.name for e in badw.effects]}" if badw else "") +
+               " -- the condition reaches the caller instead of being waited out, at whatever byte position it strikes",
+               (badw.raise_loc if badw else "") or idx.loc(idx.func(q).node), {"path": path_text(badw)} if badw else None)
     from .c13 import _disp_paths
     I2, outs2 = _disp_paths(ctx, "_dispatcher:SSLDispatcher")
     badp = None
